@@ -49,7 +49,8 @@ Negotiate(scn) ==
         sz == SrvComp(scn.cfg, scn.cl.comp)
         mi == MethodInfo(scn.cl.method)
         clientGet == scn.cl.form = "connect_get" \/ (scn.cl.form = "rest" /\ mi.restget)
-        useGet == sp = "connect" /\ mi.stream = "unary" /\ clientGet /\ mi.nse /\ Stable(sc)
+        \* ... and the URL fits the configured maximum (getdelta "m1": limit one below the URL's length)
+        useGet == sp = "connect" /\ mi.stream = "unary" /\ clientGet /\ mi.nse /\ Stable(sc) /\ scn.cl.getdelta # "m1"
         sform == CASE sp = "connect" -> (IF mi.stream # "unary" THEN "connect_stream"
                                          ELSE IF useGet THEN "connect_get" ELSE "connect_post")
                    [] sp = "grpc" -> "grpc" [] sp = "grpcweb" -> "grpcweb" [] OTHER -> "rest"
@@ -197,7 +198,7 @@ ErrorEnd(scn, srv, code, herr, nframes, fromHandler) ==
 DefDisp == [kind |-> "service", http |-> "POST", major |-> 1, path |-> "rpc", proto |-> "", form |-> "", codec |-> "",
             enc |-> "", accept |-> <<>>, ctl |-> <<>>, bad |-> <<>>, clen |-> -1, frames |-> <<>>, rest |-> 0,
             readerr |-> "", timeout |-> "", hdrs |-> <<>>, lost |-> <<>>, same |-> FALSE, diff |-> <<>>,
-            query |-> "none", herr |-> 0, radapter |-> "", wadapter |-> ""]
+            query |-> "none", herr |-> 0, radapter |-> "", wadapter |-> "", urllen |-> 0]
 
 \* a backend that fails with a bare HTTP status: the published HTTP -> RPC code mapping
 BareHttpCode(scn, srv) == CodeOfHttp(scn.hd.status)
@@ -209,7 +210,8 @@ PredictCore(scn) ==
     IF rej \in PreValidationRejects THEN
         \* operation.reportError before isValid: plain HTTP error, no dispatch
         [disp |-> <<>>, ret |-> PredRet(0),
-         cl |-> PredClient(RejectStatus(rej), "text/plain; charset=utf-8", "", <<>>, [NoEnd EXCEPT !.place = "status"], 1)]
+         cl |-> [PredClient(RejectStatus(rej), "text/plain; charset=utf-8", "", <<>>, [NoEnd EXCEPT !.place = "status"], 1)
+                 EXCEPT !.allow = IF RejectStatus(rej) = 405 THEN <<"POST">> ELSE <<>>]]
     ELSE IF rej = "unknownpath-handler" THEN
         [disp |-> <<[DefDisp EXCEPT !.kind = "unknown", !.same = TRUE, !.path = "other", !.form = "other", !.proto = "other"]>>,
          ret |-> PredRet(1),
@@ -260,7 +262,7 @@ PredictCore(scn) ==
 
 \* (the model's outcome does not depend on chunking at all: it has no notion of it at this grain;
 \*  the byte-grain model Framing.tla establishes that independence)
-Predict(scn) == LET p == PredictCore(scn) IN [disp |-> p.disp, ret |-> p.ret, cl |-> p.cl, ref |-> NoRef]
+Predict(scn) == LET p == PredictCore(scn) IN [disp |-> p.disp, ret |-> p.ret, cl |-> p.cl, ref |-> NoRef, maxget |-> 0]
 
 (***************************************************************************)
 (* Conformance of a recorded observation with the model's prediction.      *)
